@@ -40,6 +40,7 @@ from ._customization import (
     yields_frames,
 )
 from . import _extract
+from . import _verif
 
 try:
     if not TYPE_CHECKING:
@@ -91,20 +92,36 @@ glue_lock = threading.Lock()
 
 
 def add_glue_as_needed(*, _sys_modules_len_cache: list[int] = [0]) -> None:
+    if _verif.ENABLED:
+        _verif.point("glue_check", cache=_sys_modules_len_cache[0])
     if len(sys.modules) == _sys_modules_len_cache[0]:
+        if _verif.ENABLED:
+            _verif.point("glue_fast", cache=_sys_modules_len_cache[0])
         return
+    if _verif.ENABLED:
+        _verif.point("glue_wait")
     # Use a lock to avoid races between multiple threads trying to extract
     # tracebacks simultaneously
     with glue_lock:
         module_names = tuple(sys.modules)
+        if _verif.ENABLED:
+            _verif.point("glue_snapshot", names=module_names)
         for module_name in module_names:
+            if _verif.ENABLED:
+                _verif.point("glue_next", module=module_name)
             builtin_fn = builtin_glue_pending.pop(module_name, None)
+            if _verif.ENABLED:
+                _verif.point("glue_popb", module=module_name, builtin=builtin_fn)
             try:
                 module_fn = sys.modules[module_name].__dict__.pop(
                     "_stackscope_install_glue_", None
                 )
             except Exception:  # module disappeared, doesn't have a dict, etc
                 module_fn = None
+            if _verif.ENABLED:
+                _verif.point(
+                    "glue_popm", module=module_name, builtin=builtin_fn, modfn=module_fn
+                )
             try:
                 # Prefer the module-supplied glue over our builtin version
                 # in case both are present
@@ -125,9 +142,15 @@ def add_glue_as_needed(*, _sys_modules_len_cache: list[int] = [0]) -> None:
                     "missing information.",
                     RuntimeWarning,
                 )
+            if _verif.ENABLED:
+                _verif.point("glue_called", module=module_name)
         # Only update the length cache if we visited every module (rather
         # than bailing out with an exception)
         _sys_modules_len_cache[0] = len(module_names)
+        if _verif.ENABLED:
+            _verif.point("glue_cache", cache=_sys_modules_len_cache[0])
+    if _verif.ENABLED:
+        _verif.point("glue_release")
 
 
 functools_singledispatch_wrapper = get_code(functools.singledispatch, "wrapper")
